@@ -160,7 +160,7 @@ fn hash_of<T: Hash + ?Sized>(t: &T) -> u64 {
 }
 
 macro_rules! family {
-    ($c:expr, $T:literal, $bx:expr, $by:expr, $x:expr, $y:expr, $utf8:expr) => {{
+    ($c:expr, $T:literal, $bx:expr, $by:expr, $x:expr, $y:expr, $ux:expr, $uy:expr) => {{
         let bx = &$bx;
         let by = &$by;
         let x: &[u8] = $x;
@@ -181,18 +181,21 @@ macro_rules! family {
         if Ord::cmp(bx, by) != x.cmp(y) {
             $c.bad(concat!($T, ",", $T), "cmp", format!("{:?}", Ord::cmp(bx, by)), format!("{:?}", x.cmp(y)));
         }
-        if $utf8 {
-            let sx: &str = std::str::from_utf8(x).unwrap();
+        // the str-typed operand must be valid UTF-8, the crate-side operand may hold any bytes
+        if $uy {
             let sy: &str = std::str::from_utf8(y).unwrap();
-            let ox: String = sx.to_string();
             let oy: String = sy.to_string();
             both!($c, concat!($T, ",str"), *bx, *sy);
-            both!($c, concat!("str,", $T), *sx, *by);
             both!($c, concat!($T, ",String"), *bx, oy);
-            both!($c, concat!("String,", $T), ox, *by);
             both!($c, concat!($T, ",&str"), *bx, sy);
-            both!($c, concat!("&str,", $T), sx, *by);
             both!($c, concat!($T, ",&String"), *bx, &oy);
+        }
+        if $ux {
+            let sx: &str = std::str::from_utf8(x).unwrap();
+            let ox: String = sx.to_string();
+            both!($c, concat!("str,", $T), *sx, *by);
+            both!($c, concat!("String,", $T), ox, *by);
+            both!($c, concat!("&str,", $T), sx, *by);
         }
         // Hash == hash of the borrowed slice (Borrow<[u8]> contract)
         $c.o.add("hashes", 1);
@@ -206,16 +209,44 @@ macro_rules! family {
     }};
 }
 
-fn cmp_pair(o: &mut Obs, x: &[u8], y: &[u8], repx: usize, repy: usize, utf8: bool, case: String) {
+fn cmp_pair(o: &mut Obs, x: &[u8], y: &[u8], repx: usize, repy: usize, case: String) {
+    let ux = std::str::from_utf8(x).is_ok();
+    let uy = std::str::from_utf8(y).is_ok();
     let mut c = Cmp { o, x, y, case };
     let bx = mk_bytes(repx, x);
     let by = mk_bytes(repy, y);
     let mx = mk_mut(repx, x);
     let my = mk_mut(repy, y);
-    family!(c, "Bytes", bx, by, x, y, utf8);
-    family!(c, "BytesMut", mx, my, x, y, utf8);
+    family!(c, "Bytes", bx, by, x, y, ux, uy);
+    family!(c, "BytesMut", mx, my, x, y, ux, uy);
     eq_only!(c, "Bytes,BytesMut", bx, my);
     eq_only!(c, "BytesMut,Bytes", mx, by);
+    // aliased operands: both views of ONE buffer (same start address with different lengths, or
+    // overlapping windows) -- comparisons must still depend on the bytes only
+    if !x.is_empty() || !y.is_empty() {
+        if y.starts_with(x) {
+            let whole = mk_bytes(repy, y);
+            let pre = whole.slice(..x.len());
+            family!(c, "Bytes", pre, whole, x, y, ux, uy);
+            let mut t = whole.clone();
+            t.truncate(x.len());
+            family!(c, "Bytes", t, whole, x, y, ux, uy);
+            c.o.inc("aliased_pairs");
+        }
+        if x.starts_with(y) {
+            let whole = mk_bytes(repx, x);
+            let pre = whole.slice(..y.len());
+            family!(c, "Bytes", whole, pre, x, y, ux, uy);
+            c.o.inc("aliased_pairs");
+        }
+        // x ++ y in one buffer, compared as two windows of it
+        let mut cat = x.to_vec();
+        cat.extend_from_slice(y);
+        let both = mk_bytes(repx + 1, &cat);
+        let wx = both.slice(..x.len());
+        let wy = both.slice(x.len()..);
+        family!(c, "Bytes", wx, wy, x, y, ux, uy);
+    }
     c.o.inc("pairs");
 }
 
@@ -254,10 +285,10 @@ fn run_cmp(a: &Args, o: &mut Obs) {
             let case = format!("tbl:cmp:{i}:{j}");
             if allreps {
                 for r in 0..NB {
-                    cmp_pair(o, x, y, r, (r + j) % NB, true, case.clone());
+                    cmp_pair(o, x, y, r, (r + j) % NB, case.clone());
                 }
             } else {
-                cmp_pair(o, x, y, (i + seed as usize) % NB, (j + i + seed as usize) % NB, true, case);
+                cmp_pair(o, x, y, (i + seed as usize) % NB, (j + i + seed as usize) % NB, case);
             }
         }
     }
@@ -284,10 +315,17 @@ fn run_cmp(a: &Args, o: &mut Obs) {
             std::mem::swap(&mut x, &mut y);
         }
         let utf8 = std::str::from_utf8(&x).is_ok() && std::str::from_utf8(&y).is_ok();
+        // make sure one-sided UTF-8 pairs occur: an ASCII string against arbitrary bytes
+        if k % 3 == 0 {
+            x = (0..r.below(6)).map(|_| b'a' + r.byte() % 26).collect();
+            if r.chance(1, 2) {
+                std::mem::swap(&mut x, &mut y);
+            }
+        }
         if k == 0 {
             o.sample(format!("random pair {:?} vs {:?} utf8={utf8}", Bytes::copy_from_slice(&x), Bytes::copy_from_slice(&y)));
         }
-        cmp_pair(o, &x, &y, r.below(NB), r.below(NB), utf8, format!("tbl:cmp:rnd:{seed}:{shard}:{k}"));
+        cmp_pair(o, &x, &y, r.below(NB), r.below(NB), format!("tbl:cmp:rnd:{seed}:{shard}:{k}"));
     }
     o.sample("exhaustive pair (b\"a\\0\", b\"a\") through every impl: Bytes,Bytes Bytes,[u8] [u8],Bytes Bytes,Vec Vec,Bytes Bytes,&[u8] &[u8],Bytes Bytes,&Vec Bytes,&Bytes Bytes,str str,Bytes Bytes,String String,Bytes Bytes,&str &str,Bytes Bytes,&String (same for BytesMut) + Bytes,BytesMut BytesMut,Bytes");
 }
